@@ -1739,6 +1739,15 @@ impl<'a> CompilerState<'a> {
                                             };
                                             v.push(VariableValue::Int(d as i32));
                                         }
+                                        if let Some(s) = size {
+                                            // The rest of an array larger than its string is zero
+                                            if s < v.len() {
+                                                return Err(self.syntax_error("Specified array size is different from actual definition", start));
+                                            }
+                                            while v.len() < s {
+                                                v.push(VariableValue::Int(0));
+                                            }
+                                        }
                                         size = Some(v.len());
                                         def = VariableDefinition::Array(v);
                                     }
